@@ -322,7 +322,7 @@ def hist_key(inp, out):
         return 'out-of-scope: ' + out['why'][:40]
     t = inp['threads']
     return '%s%s/threads%s/%s/poison%s%s%s%s' % (
-        inp.get('api', 'tomtom'), ('/mixed-dtype' if inp.get('Qdt') else '') + ('/long-query' if inp.get('long') else '') + ('/prefix-queries' if inp.get('prefix') else '')
+        inp.get('api', 'tomtom'), ('/mixed-dtype' if inp.get('Qdt') else '') + ('/long-query' if inp.get('long') else '') + ('/prefix-queries' if inp.get('prefix') else '') + ('/hash-range' if inp.get('hashrange') else '')
         + ('/batch>128' if inp.get('batch') and len(inp['idxs']) > 128 else ''), '1' if t == 1 else ('2-4' if t <= 4 else ('5-8' if t <= 8 else '9-16')),
         'full' if inp['nn'] is None else 'nn', inp.get('poison', 'A'),
         '' if out.get('hook') else '/HOOK-ABSENT', '/rc' if inp['rc'] else '', '/hash' if inp['ntb'] else '')
@@ -545,6 +545,30 @@ def prefix_variants(rng, base):
                        nn=None if k % 3 else rng.randint(1, nT), poison='A', api='tomtom')
 
 
+def gen_hashrange_base(rng):
+    """column hashing ON (n_target_bins 100 / 10 / 4); probability PWM queries 0-2 next to queries whose values lie far
+    outside the targets' per-row [min, max]: 3 a count matrix (entries 0..40), 4 a shifted / scaled PWM. Which target
+    columns are merged by the hashing must depend on the targets only"""
+    rs = c14.np_rng(rng)
+    Q = [c14.pwm(rs, rng.randint(2, 8), rng.choice([0.3, 1.0]), 0) for _ in range(3)]
+    Q.append(rs.randint(0, 41, size=(rng.randint(3, 8), 4)).astype(float).tolist())
+    Q.append((numpy.array(c14.pwm(rs, rng.randint(3, 7), 0.5, 0)) * rng.choice([5, 30]) - rng.choice([0, 2])).tolist())
+    T = [c14.pwm(rs, rng.choice([3, 5, 8, 12]), rng.choice([0.3, 1.0]), 0) for _ in range(rng.randint(4, 7))]
+    return {'Q': Q, 'T': T, 'nb': rng.choice([20, 50, 100]), 'rc': rng.random() < 0.5,
+            'ntb': rng.choice([100, 100, 10, 4]), 'hashrange': True}
+
+
+def hashrange_variants(rng, base):
+    nT = len(base['T'])
+    lists = []
+    for i in range(3):
+        lists += [[i, 3], [3, i], [i, 4]]
+    lists += [[0, 1, 2], [0, 1, 2, 3, 4], [4, 3, 2, 1, 0], [3, 4]]
+    for k, idxs in enumerate(lists):
+        yield dict(base, kind='variant', idxs=idxs, threads=1 + k % 2, chunk=0,
+                   nn=None if k % 4 else rng.randint(1, nT), poison='A', api='tomtom')
+
+
 def gen_batch_base(rng):
     """130-200 short queries against a few targets: a call-size dependent code path (batching, sorting,
     chunking of the query list) must hand every row back to the query it belongs to"""
@@ -615,6 +639,10 @@ def generate(tier, rng):
     for _ in range(1 if quick else 4):
         base = gen_prefix_base(rng)
         for v in prefix_variants(rng, base):
+            yield v
+    for _ in range(1 if quick else 4):
+        base = gen_hashrange_base(rng)
+        for v in hashrange_variants(rng, base):
             yield v
     for _ in range(1 if quick else 3):
         base = gen_batch_base(rng)
